@@ -369,6 +369,82 @@ for _cls, _m in _ctor_targets():
     _make_ctor(_cls, _m)
 
 
+def _rejected_call_probes():
+    """(name, outcome, validation errors) for a list of out-of-domain assignments through the public API"""
+    from pptx import Presentation
+    from pptx.chart.data import CategoryChartData
+    from pptx.enum.chart import XL_CHART_TYPE, XL_LEGEND_POSITION
+    from pptx.util import Inches, Pt
+
+    def fresh():
+        prs=Presentation(); s=prs.slides.add_slide(prs.slide_layouts[6])
+        d=CategoryChartData(); d.categories=["a","b"]; d.add_series("s",(1,2))
+        ch=s.shapes.add_chart(XL_CHART_TYPE.LINE_MARKERS,0,0,Inches(2),Inches(2),d).chart
+        bar=s.shapes.add_chart(XL_CHART_TYPE.BAR_CLUSTERED,0,0,Inches(2),Inches(2),d).chart
+        tb=s.shapes.add_textbox(0,0,100,100); sh=s.shapes.add_shape(1,0,0,100,100)
+        tbl=s.shapes.add_table(2,2,0,0,100,100).table
+        return prs,s,ch,bar,tb,sh,tbl
+    tries=[
+     ("value_axis.major_unit=-1", lambda e: setattr(e[2].value_axis,"major_unit",-1)),
+     ("value_axis.minor_unit=0", lambda e: setattr(e[2].value_axis,"minor_unit",0)),
+     ("value_axis.maximum_scale='x'", lambda e: setattr(e[2].value_axis,"maximum_scale","x")),
+     ("value_axis.minimum_scale='x'", lambda e: setattr(e[2].value_axis,"minimum_scale","x")),
+     ("value_axis.crosses_at='x'", lambda e: setattr(e[2].value_axis,"crosses_at","x")),
+     ("value_axis.crosses=7", lambda e: setattr(e[2].value_axis,"crosses",7)),
+     ("plot.overlap=200", lambda e: setattr(e[3].plots[0],"overlap",200)),
+     ("plot.gap_width=600", lambda e: setattr(e[3].plots[0],"gap_width",600)),
+     ("chart.chart_style=100", lambda e: setattr(e[2],"chart_style",100)),
+     ("tick_labels.offset=2000", lambda e: setattr(e[2].category_axis.tick_labels,"offset",2000)),
+     ("marker.size=100", lambda e: setattr(e[2].plots[0].series[0].marker,"size",100)),
+     ("marker.style=99", lambda e: setattr(e[2].plots[0].series[0].marker,"style",99)),
+     ("legend.position=CUSTOM", lambda e: (setattr(e[2],"has_legend",True), setattr(e[2].legend,"position",XL_LEGEND_POSITION.CUSTOM))),
+     ("major_tick_mark=99", lambda e: setattr(e[2].value_axis,"major_tick_mark",99)),
+     ("minor_tick_mark=99", lambda e: setattr(e[2].value_axis,"minor_tick_mark",99)),
+     ("tick_label_position=99", lambda e: setattr(e[2].value_axis,"tick_label_position",99)),
+     ("data_labels.position=99", lambda e: (setattr(e[2].plots[0],"has_data_labels",True), setattr(e[2].plots[0].data_labels,"position",99))),
+     ("point.data_label.position=99", lambda e: setattr(e[2].plots[0].series[0].points[0].data_label,"position",99)),
+     ("series.smooth='x'", lambda e: setattr(e[2].plots[0].series[0],"smooth","x")),
+     ("font.size=Pt(5000)", lambda e: setattr(e[4].text_frame.paragraphs[0].add_run().font,"size",Pt(5000))),
+     ("font.underline=99", lambda e: setattr(e[4].text_frame.paragraphs[0].add_run().font,"underline",99)),
+     ("paragraph.level=12", lambda e: setattr(e[4].text_frame.paragraphs[0],"level",12)),
+     ("paragraph.alignment=99", lambda e: setattr(e[4].text_frame.paragraphs[0],"alignment",99)),
+     ("text_frame.margin_left='w'", lambda e: setattr(e[4].text_frame,"margin_left","w")),
+     ("text_frame.vertical_anchor=99", lambda e: setattr(e[4].text_frame,"vertical_anchor",99)),
+     ("text_frame.auto_size=99", lambda e: setattr(e[4].text_frame,"auto_size",99)),
+     ("line.width=-5", lambda e: setattr(e[5].line,"width",-5)),
+     ("line.dash_style=99", lambda e: setattr(e[5].line,"dash_style",99)),
+     ("shape.rotation='x'", lambda e: setattr(e[5],"rotation","x")),
+     ("shape.width=-1", lambda e: setattr(e[5],"width",-1)),
+     ("shape.left=2**63", lambda e: setattr(e[5],"left",2**63)),
+     ("fill.gradient_angle (no gradient)", lambda e: setattr(e[5].fill,"gradient_angle",45)),
+     ("fill.pattern=99", lambda e: (e[5].fill.patterned(), setattr(e[5].fill,"pattern",99))),
+     ("fore_color.brightness=2", lambda e: (e[5].fill.solid(), setattr(e[5].fill.fore_color,"brightness",2))),
+     ("fore_color.theme_color=99", lambda e: (e[5].fill.solid(), setattr(e[5].fill.fore_color,"theme_color",99))),
+     ("fore_color.rgb='red'", lambda e: (e[5].fill.solid(), setattr(e[5].fill.fore_color,"rgb","red"))),
+     ("cell.margin_left=-1", lambda e: setattr(e[6].cell(0,0),"margin_left",-1)),
+     ("cell.vertical_anchor=99", lambda e: setattr(e[6].cell(0,0),"vertical_anchor",99)),
+     ("column.width=-1", lambda e: setattr(e[6].columns[0],"width",-1)),
+     ("row.height=-1", lambda e: setattr(e[6].rows[0],"height",-1)),
+     ("adjustments[0]='x'", lambda e: e[1].shapes.add_shape(5,0,0,10,10).adjustments.__setitem__(0,"x")),
+     ("pic.crop_left=5", lambda e: None),
+     ("gradient_stop.position=2", lambda e: (e[5].fill.gradient(), setattr(e[5].fill.gradient_stops[0],"position",2))),
+     ("shadow.inherit=...", lambda e: None),
+     ("core.revision=-1", lambda e: setattr(e[0].core_properties,"revision",-1)),
+    ]
+    out = []
+    for name, fn in tries:
+        e = fresh()
+        try:
+            fn(e)
+            outcome = "accepted"
+        except (ValueError, TypeError) as ex:
+            outcome = "rejected with %s" % type(ex).__name__
+        except Exception as ex:
+            outcome = "aborted by %r" % (ex,)
+        out.append((name, outcome, validate_prs(e[0])))
+    return out
+
+
 # ---------------------------------------------------------------------------------------------------------
 # BOUNDED native job: histories of operations with validation of every part after every step
 
@@ -893,6 +969,12 @@ def _native_histories(tier="quick", seed=0, only_templates=False):
             if v:
                 found.setdefault(signature("/" + v[0][0], v[0][1]), "%s, history %s: saved file has invalid part %s: %s" % (label, hist, v[0][0], v[0][1][:2]))
         rec("C03.native.histories_run[%s]" % label, bad)
+    # calls refused with ValueError / TypeError must leave every part as valid as it was: one probe per setter family
+    for pname, outcome, errs in _rejected_call_probes():
+        nm = "C03.native.rejected_call_leaves_parts_valid[%s]" % pname
+        rec(nm, ("%s was %s and left %s" % (pname, outcome, errs[0][1][:1])) if errs else None)
+        if errs:
+            obls[-1]["replay"]["witness_class"] = "rejected-call-invalid"
     # deterministic scenario probes for invalidities the random histories meet only under some seeds
     def scenario_bubble_marker():
         from pptx.chart.data import BubbleChartData
